@@ -1,5 +1,6 @@
 import Sentinel.LeapArray
 import SentinelProofs.Lemmas.Ring
+import SentinelProofs.Lemmas.RingMore
 /-!
 # C02 — sliding-window statistics report exactly the events inside the window
 
@@ -357,6 +358,251 @@ theorem history_sum_eq (sc iv n piv : Nat) (evs : List TEv) (now : Nat) (k : Kin
     exact sliding_sum_eq _ hn hLpos _ [] 0 ⟨sc, iv⟩ now k (ring_inv_init' _ 0) (Nat.zero_le _) t2 (by show iv ≤ n * (piv / n); omega) hguard
   · exact sliding_sum_eq _ hn hLpos r evs e.1 ⟨sc, iv⟩ now k hinv (hnow e he) t2 (by show iv ≤ n * (piv / n); omega) hguard
 
+/-! ## maxima and the raw `is_deprecated` filter -/
+
+theorem windowSum_single (g : Geo) (evs : List TEv) (b : Nat) (k : Kind) :
+    windowSum g.L evs b b k = ((evs.filter (fun e => g.start e.1 = b)).map (fun e => e.2.amount k)).sum := by
+  unfold windowSum
+  congr 2
+  apply List.filter_congr
+  intro e _
+  show (decide (b ≤ g.start e.1) && decide (g.start e.1 ≤ b)) = decide (g.start e.1 = b)
+  by_cases h : g.start e.1 = b
+  · simp [h]
+  · simp only [h, decide_false]
+    apply Bool.eq_false_iff.mpr
+    intro hh
+    simp only [Bool.and_eq_true, decide_eq_true_eq] at hh
+    omega
+
+theorem maxConc_apply (b : MetricBucket) (e : Ev) : (e.apply b).maxConc = max e.concVal b.maxConc := by
+  cases e with
+  | add k' c => cases k' <;> simp [Ev.apply, MetricBucket.add, Ev.concVal]
+  | conc c =>
+    simp only [Ev.apply, MetricBucket.updateConcurrency, Ev.concVal]
+    split
+    · show c = max c b.maxConc
+      omega
+    · omega
+
+theorem maxConc_bucketVal (g : Geo) (evs : List TEv) (b : Nat) :
+    (bucketVal Ev.apply MetricBucket.zero g evs b).maxConc
+      = maxOver ((evs.filter (fun e => g.start e.1 = b)).map (fun e => e.2.concVal)) := by
+  unfold bucketVal
+  induction evs.filter (fun e => g.start e.1 = b) with
+  | nil => rfl
+  | cons e l ih => simp only [List.foldr_cons, List.map_cons, maxOver_cons, maxConc_apply, ih]
+
+/-- what the two maximum theorems share: under the hypotheses of the read theorem, the in-window slots are exactly the
+resident buckets of the window's events -/
+theorem window_slots (g : Geo) (hn : 0 < g.n) (hL : 0 < g.L) (r : BRing) (evs : List TEv) (tl : Nat)
+    (rd : Reader) (now : Nat) (hinv : BInv g r evs tl) (hnow : tl ≤ now)
+    (hWL : g.L ≤ rd.iv) (hWn : rd.iv ≤ g.interval) (hguard : rd.iv ≤ g.start now) :
+    (∀ i, i < g.n → inWin g rd.iv now (slotAt MetricBucket.zero r i).stamp = true →
+        (slotAt MetricBucket.zero r i).val = bucketVal Ev.apply MetricBucket.zero g evs (slotAt MetricBucket.zero r i).stamp ∧
+        g.start now - rd.iv + g.L ≤ (slotAt MetricBucket.zero r i).stamp ∧ (slotAt MetricBucket.zero r i).stamp ≤ g.start now) ∧
+    (∀ e ∈ evs, g.start now - rd.iv + g.L ≤ g.start e.1 → g.start e.1 ≤ g.start now →
+        (slotAt MetricBucket.zero r (g.idx e.1)).stamp = g.start e.1 ∧
+        inWin g rd.iv now (slotAt MetricBucket.zero r (g.idx e.1)).stamp = true) := by
+  have hnowL := g.lt_start_add hL now
+  have hnowhi := g.start_le now
+  have hstl := g.start_mono hnow
+  constructor
+  · intro i hi hw
+    have hw' := (inWin_iff g rd.iv now _).mp hw
+    have hne : (slotAt MetricBucket.zero r i).stamp ≠ 0 := by omega
+    exact ⟨(slot_is_bucket _ _ g r evs tl hinv i hi hne).1, hw'.2.1, hw'.2.2⟩
+  · intro e he h1 h2
+    have hres := event_bucket_resident _ _ g hn hL r evs tl hinv e he (by omega)
+    refine ⟨hres, ?_⟩
+    rw [hres, inWin_iff]
+    refine ⟨?_, h1, h2⟩
+    intro ⟨_, hd⟩
+    omega
+
+/-- **Read theorem (`max_of_single_bucket`)**: the largest per-bucket total of `k` among the buckets of the window -/
+theorem max_of_single_bucket_eq (g : Geo) (hn : 0 < g.n) (hL : 0 < g.L) (r : BRing) (evs : List TEv) (tl : Nat)
+    (rd : Reader) (now : Nat) (k : Kind) (hinv : BInv g r evs tl) (hnow : tl ≤ now)
+    (hWL : g.L ≤ rd.iv) (hWn : rd.iv ≤ g.interval) (hguard : rd.iv ≤ g.start now) :
+    r.maxOfSingleBucket g rd now k = windowMaxBucket g.L evs (g.start now - rd.iv + g.L) (g.start now) k := by
+  obtain ⟨hA, hB⟩ := window_slots g hn hL r evs tl rd now hinv hnow hWL hWn hguard
+  unfold BRing.maxOfSingleBucket foldSlots windowMaxBucket
+  have hfold := foldl_cond_max (List.range g.n)
+    (fun i => inWin g rd.iv now (slotAt MetricBucket.zero r i).stamp)
+    (fun i => (slotAt MetricBucket.zero r i).val.get k) 0
+  simp only [] at hfold ⊢
+  rw [hfold, Nat.zero_max]
+  show maxOver _ = maxOver _
+  have hst : ∀ e : TEv, e.1 - e.1 % g.L = g.start e.1 := fun _ => rfl
+  apply maxOver_eq_of_dom
+  · intro x hx
+    simp only [List.mem_map, List.mem_range] at hx
+    obtain ⟨i, hi, rfl⟩ := hx
+    by_cases hw : inWin g rd.iv now (slotAt MetricBucket.zero r i).stamp = true
+    · simp only [hw, if_true]
+      obtain ⟨hv, hlo, hhi⟩ := hA i hi hw
+      rw [hv, get_bucketVal]
+      by_cases hz : ((evs.filter (fun e => g.start e.1 = (slotAt MetricBucket.zero r i).stamp)).map (fun e => e.2.amount k)).sum = 0
+      · left; exact hz
+      · right
+        have hnil : evs.filter (fun e => g.start e.1 = (slotAt MetricBucket.zero r i).stamp) ≠ [] := by
+          intro h; rw [h] at hz; exact hz rfl
+        obtain ⟨e, hmem⟩ := List.exists_mem_of_ne_nil _ hnil
+        simp only [List.mem_filter, decide_eq_true_eq] at hmem
+        refine ⟨windowSum g.L evs (g.start e.1) (g.start e.1) k, ?_, ?_⟩
+        · simp only [List.mem_map, List.mem_filter, Bool.and_eq_true, decide_eq_true_eq, hst]
+          exact ⟨e, ⟨hmem.1, by omega, by omega⟩, rfl⟩
+        · rw [windowSum_single, hmem.2]; exact Nat.le_refl _
+    · left; simp [hw]
+  · intro y hy
+    simp only [List.mem_map, List.mem_filter, Bool.and_eq_true, decide_eq_true_eq, hst] at hy
+    obtain ⟨e, ⟨he, h1, h2⟩, rfl⟩ := hy
+    right
+    obtain ⟨hres, hw⟩ := hB e he h1 h2
+    refine ⟨_, List.mem_map.mpr ⟨g.idx e.1, List.mem_range.mpr (g.idx_lt hn _), rfl⟩, ?_⟩
+    simp only [hw, if_true]
+    obtain ⟨hv, _, _⟩ := hA _ (g.idx_lt hn _) hw
+    rw [hv, get_bucketVal, windowSum_single, hres]; exact Nat.le_refl _
+
+/-- **Read theorem (`max_concurrency`)**: the largest concurrency value recorded in the window -/
+theorem max_concurrency_eq (g : Geo) (hn : 0 < g.n) (hL : 0 < g.L) (r : BRing) (evs : List TEv) (tl : Nat)
+    (rd : Reader) (now : Nat) (hinv : BInv g r evs tl) (hnow : tl ≤ now)
+    (hWL : g.L ≤ rd.iv) (hWn : rd.iv ≤ g.interval) (hguard : rd.iv ≤ g.start now) :
+    r.maxConcurrency g rd now = windowMaxConc g.L evs (g.start now - rd.iv + g.L) (g.start now) := by
+  obtain ⟨hA, hB⟩ := window_slots g hn hL r evs tl rd now hinv hnow hWL hWn hguard
+  unfold BRing.maxConcurrency foldSlots windowMaxConc
+  have hfold := foldl_cond_max (List.range g.n)
+    (fun i => inWin g rd.iv now (slotAt MetricBucket.zero r i).stamp)
+    (fun i => (slotAt MetricBucket.zero r i).val.maxConc) 0
+  simp only [] at hfold ⊢
+  rw [hfold, Nat.zero_max]
+  show maxOver _ = maxOver _
+  have hst : ∀ e : TEv, e.1 - e.1 % g.L = g.start e.1 := fun _ => rfl
+  apply maxOver_eq_of_dom
+  · intro x hx
+    simp only [List.mem_map, List.mem_range] at hx
+    obtain ⟨i, hi, rfl⟩ := hx
+    by_cases hw : inWin g rd.iv now (slotAt MetricBucket.zero r i).stamp = true
+    · simp only [hw, if_true]
+      obtain ⟨hv, hlo, hhi⟩ := hA i hi hw
+      rw [hv, maxConc_bucketVal]
+      rcases maxOver_mem_or_zero ((evs.filter (fun e => g.start e.1 = (slotAt MetricBucket.zero r i).stamp)).map (fun e => e.2.concVal)) with h0 | hm
+      · left; exact h0
+      · right
+        simp only [List.mem_map, List.mem_filter, decide_eq_true_eq] at hm
+        obtain ⟨e, ⟨he, hse⟩, hce⟩ := hm
+        refine ⟨e.2.concVal, ?_, by rw [hce]; exact Nat.le_refl _⟩
+        simp only [List.mem_map, List.mem_filter, Bool.and_eq_true, decide_eq_true_eq, hst]
+        exact ⟨e, ⟨he, by omega, by omega⟩, rfl⟩
+    · left; simp [hw]
+  · intro y hy
+    simp only [List.mem_map, List.mem_filter, Bool.and_eq_true, decide_eq_true_eq, hst] at hy
+    obtain ⟨e, ⟨he, h1, h2⟩, rfl⟩ := hy
+    right
+    obtain ⟨hres, hw⟩ := hB e he h1 h2
+    refine ⟨_, List.mem_map.mpr ⟨g.idx e.1, List.mem_range.mpr (g.idx_lt hn _), rfl⟩, ?_⟩
+    simp only [hw, if_true]
+    obtain ⟨hv, _, _⟩ := hA _ (g.idx_lt hn _) hw
+    rw [hv, maxConc_bucketVal, hres]
+    apply le_maxOver
+    exact List.mem_map.mpr ⟨e, List.mem_filter.mpr ⟨he, by simp⟩, rfl⟩
+
+/-- **`count_with_time`, exactly** (raw `is_deprecated` filter, any read time not before the last write): the total of
+the events whose bucket start is `≥ now − interval` and whose bucket has not been overwritten -/
+theorem count_with_time_resident (g : Geo) (hn : 0 < g.n) (hL : 0 < g.L) (r : BRing) (evs : List TEv) (tl now : Nat) (k : Kind)
+    (hinv : BInv g r evs tl) (hnow : tl ≤ now) :
+    r.countWithTime g now k = windowSumIf g.L evs
+      (fun b => decide ((slotAt MetricBucket.zero r (g.idx b)).stamp = b) && decide (now - g.interval ≤ b)) k := by
+  unfold BRing.countWithTime foldSlots windowSumIf
+  have hstl := g.start_mono hnow
+  have hnowhi := g.start_le now
+  have h := ring_pred_sum Ev.apply MetricBucket.zero g hn hL r evs tl (fun b => b.get k) (fun e => e.amount k)
+    (get_zero k) (fun b e => get_apply b e k) hinv (validAt g now)
+    (fun b => decide ((slotAt MetricBucket.zero r (g.idx b)).stamp = b) && decide (now - g.interval ≤ b))
+    (by
+      intro i hi hc hne
+      have hs := hinv.slot i hi hne
+      simp only [validAt, deprecated, Bool.not_eq_true', Bool.and_eq_false_iff, decide_eq_false_iff_not] at hc
+      simp only [Bool.and_eq_true, decide_eq_true_eq]
+      refine ⟨by rw [hs.2.1], ?_⟩
+      omega)
+    (by
+      intro e he hp
+      simp only [Bool.and_eq_true, decide_eq_true_eq] at hp
+      rw [g.idx_start hL] at hp
+      refine ⟨hp.1, ?_⟩
+      simp only [validAt, deprecated, Bool.not_eq_true', Bool.and_eq_false_iff, decide_eq_false_iff_not]
+      omega)
+  simp only [] at h ⊢
+  exact h
+
+/-- nothing older than one interval is ever reported -/
+theorem count_with_time_upper (g : Geo) (hn : 0 < g.n) (hL : 0 < g.L) (r : BRing) (evs : List TEv) (tl now : Nat) (k : Kind)
+    (hinv : BInv g r evs tl) (hnow : tl ≤ now) :
+    r.countWithTime g now k ≤ windowSum g.L evs (now - g.interval) (g.start now) k := by
+  rw [count_with_time_resident g hn hL r evs tl now k hinv hnow]
+  unfold windowSumIf windowSum
+  apply sum_filter_mono
+  intro e he hp
+  have hst : e.1 - e.1 % g.L = g.start e.1 := rfl
+  simp only [Bool.and_eq_true, decide_eq_true_eq, hst] at hp ⊢
+  have := g.start_mono (Nat.le_trans (hinv.times e he) hnow)
+  exact ⟨hp.2, this⟩
+
+/-- every event of the `n` newest buckets is always reported -/
+theorem count_with_time_lower (g : Geo) (hn : 0 < g.n) (hL : 0 < g.L) (r : BRing) (evs : List TEv) (tl now : Nat) (k : Kind)
+    (hinv : BInv g r evs tl) (hnow : tl ≤ now) :
+    windowSum g.L evs (g.start now - g.interval + g.L) (g.start now) k ≤ r.countWithTime g now k := by
+  rw [count_with_time_resident g hn hL r evs tl now k hinv hnow]
+  unfold windowSumIf windowSum
+  apply sum_filter_mono
+  intro e he hp
+  have hst : e.1 - e.1 % g.L = g.start e.1 := rfl
+  simp only [Bool.and_eq_true, decide_eq_true_eq, hst] at hp ⊢
+  have hstl := g.start_mono hnow
+  have hnowL := g.lt_start_add hL now
+  have hres := event_bucket_resident _ _ g hn hL r evs tl hinv e he (by show g.start tl < g.start e.1 + g.interval; omega)
+  refine ⟨?_, ?_⟩
+  · show (slotAt MetricBucket.zero r (g.idx (g.start e.1))).stamp = g.start e.1
+    rw [g.idx_start hL]; exact hres
+  · show now - g.interval ≤ g.start e.1
+    omega
+
+/-- off the one boundary the ring cannot represent (a read exactly on a bucket start at which something has just been
+written), `count_with_time` is exactly the total of the events whose bucket start is `≥ now − interval` -/
+theorem count_with_time_eq (g : Geo) (hn : 0 < g.n) (hL : 0 < g.L) (r : BRing) (evs : List TEv) (tl now : Nat) (k : Kind)
+    (hinv : BInv g r evs tl) (hnow : tl ≤ now) (hoff : now % g.L ≠ 0 ∨ g.start tl < now) :
+    r.countWithTime g now k = windowSum g.L evs (now - g.interval) (g.start now) k := by
+  apply Nat.le_antisymm (count_with_time_upper g hn hL r evs tl now k hinv hnow)
+  rw [count_with_time_resident g hn hL r evs tl now k hinv hnow]
+  unfold windowSumIf windowSum
+  apply sum_filter_mono
+  intro e he hp
+  have hst : e.1 - e.1 % g.L = g.start e.1 := rfl
+  simp only [Bool.and_eq_true, decide_eq_true_eq, hst] at hp ⊢
+  have hstl := g.start_mono hnow
+  have hnowL := g.lt_start_add hL now
+  have hnowhi := g.start_le now
+  have hse : g.start e.1 % g.L = 0 := g.start_mod e.1
+  have hsn : g.start now % g.L = 0 := g.start_mod now
+  have hIL : g.interval % g.L = 0 := by unfold Geo.interval; exact Nat.mul_mod_left _ _
+  have hres : g.start tl < g.start e.1 + g.interval := by
+    rcases hoff with h | h
+    · -- `now` is strictly inside its bucket: an aligned start `≥ now − interval` is `≥ start now − interval + L`
+      have hlt : g.start now < now := by
+        show now - now % g.L < now
+        have := Nat.pos_of_ne_zero h
+        have := Nat.mod_le now g.L
+        omega
+      -- start e + interval is a multiple of L that is > start now
+      have h1 : g.start now < g.start e.1 + g.interval := by omega
+      omega
+    · omega
+  have hr := event_bucket_resident _ _ g hn hL r evs tl hinv e he hres
+  refine ⟨?_, hp.1⟩
+  show (slotAt MetricBucket.zero r (g.idx (g.start e.1))).stamp = g.start e.1
+  rw [g.idx_start hL]; exact hr
+
 /-! ## non-vacuity -/
 
 /-- a concrete 4×500 ms ring: two events in different buckets, then one that rolls slot 0 over -/
@@ -368,5 +614,22 @@ example : Admissible ⟨4, 500⟩ exHistory := by
 example : leapNewOk 4 2000 = true ∧ checkReuse 2 1000 4 2000 = 0 := by decide
 example : (runHistory ⟨4, 500⟩ exHistory).isSome = true := by decide
 example : windowSum 500 exHistory (1700000002000 - 1000 + 500) 1700000002000 .pass = 7 := by decide
+
+/-- a history with concurrency samples and two pass events in one bucket -/
+def exHistory2 : List TEv :=
+  [(1700000002100, .conc 4), (1700000001700, .add .pass 5), (1700000001600, .add .pass 2), (1700000001200, .conc 9),
+   (1700000000100, .add .pass 30)]
+example : Admissible ⟨4, 500⟩ exHistory2 := by
+  refine ⟨by decide, by decide, by decide, by decide, by decide, by decide, by decide, by decide, by decide, by decide, trivial⟩
+-- the 2 s window ending in bucket 1700000002000 excludes the bucket of the 30 (it shares the slot of the newest bucket)
+example : windowMaxBucket 500 exHistory2 (1700000002000 - 2000 + 500) 1700000002000 .pass = 7 := by decide
+example : windowMaxConc 500 exHistory2 (1700000002000 - 2000 + 500) 1700000002000 = 9 := by decide
+example : windowMaxConc 500 exHistory2 (1700000002000 - 1000 + 500) 1700000002000 = 4 := by decide
+example : (runHistory ⟨4, 500⟩ exHistory2).map (fun r => (r.maxOfSingleBucket ⟨4, 500⟩ ⟨4, 2000⟩ 1700000002100 .pass,
+    r.maxConcurrency ⟨4, 500⟩ ⟨4, 2000⟩ 1700000002100, r.countWithTime ⟨4, 500⟩ 1700000002100 .pass)) = some (7, 9, 7) := by decide
+-- the excluded boundary of `count_with_time_eq` is real: read exactly on a bucket start at which something was just written
+example : (runHistory ⟨2, 500⟩ [(1700000001000, .add .pass 1), (1700000000000, .add .pass 8)]).map
+    (fun r => r.countWithTime ⟨2, 500⟩ 1700000001000 .pass) = some 1 ∧
+    windowSum 500 [(1700000001000, .add .pass 1), (1700000000000, .add .pass 8)] (1700000001000 - 1000) 1700000001000 .pass = 9 := by decide
 
 end Sentinel
